@@ -485,8 +485,13 @@ package common
 //@   opt noalloc
 //@   ensures (err != nil) == st_slot_err(s)
 //@   ensures err == nil ==> r == st_slot(s)
+//@ ufun st_gentime_err(StateI) bool
+//@ ufun st_gentime(StateI) int
 //@ func (s BeaconState) GenesisTime() (r, err)
 //@   trusted
+//@   opt noalloc
+//@   ensures (err != nil) == st_gentime_err(s)
+//@   ensures err == nil ==> r == st_gentime(s)
 //@ func (s BeaconState) RandaoMixes() (r, err)
 //@   trusted
 //@   opt noalloc
@@ -818,6 +823,22 @@ package common
 //@   opt noalloc
 //@   ensures r == deposit_data_root(*d)
 
+//@ sort ForkT = Fork
+//@ ufun st_forkdata_err(StateI) bool
+//@ ufun st_forkdata(StateI) ForkT
+//@ ufun st_gvr_err(StateI) bool
+//@ ufun st_gvr(StateI) RootT
+//@ func (s BeaconState) Fork() (r, err)
+//@   trusted
+//@   opt noalloc
+//@   ensures (err != nil) == st_forkdata_err(s)
+//@   ensures err == nil ==> r == st_forkdata(s)
+//@ func (s BeaconState) GenesisValidatorsRoot() (r, err)
+//@   trusted
+//@   opt noalloc
+//@   ensures (err != nil) == st_gvr_err(s)
+//@   ensures err == nil ==> r == st_gvr(s)
+
 // BEGIN C18 generated (tools/gen_c18.py in /verif)
 // cancelled: a context cancelled before the call makes it fail; surfaced: a cancellation observed by a poll
 // during the call makes it fail; polled: success after a poll means the context was not cancelled at entry.
@@ -858,7 +879,7 @@ package common
 //@     invariant ctx_t > old(ctx_t) ==> !ctx_cancelled(ctx, old(ctx_t))
 
 //@ func ProcessSlots(ctx, spec, epc, state, slot) err
-//@   property C18
+//@   property C18 C03
 //@   panics off
 //@   requires ctx != nil
 //@   opt weakcalls
@@ -873,6 +894,7 @@ package common
 //@     invariant ctx_t > old(ctx_t) ==> !ctx_cancelled(ctx, old(ctx_t))
 //@   loop 1
 //@     invariant ctx_t == old(ctx_t) ==> currentSlot < slot
+//@   ensures c03_forward: err == nil ==> !st_slot_err(state) && st_slot(state) < slot
 
 //@ func StateTransition(ctx, spec, epc, state, benv, validateResult) err
 //@   property C18
@@ -891,7 +913,7 @@ package common
 //@   assigns ghost(n_eng_notify), ghost(n_set_exec_header)
 
 //@ func PostSlotTransition(ctx, spec, epc, state, benv, validateResult) err
-//@   property C18
+//@   property C18 C03
 //@   panics off
 //@   requires ctx != nil
 //@   opt weakcalls
@@ -905,5 +927,8 @@ package common
 //@     invariant ctx_t >= old(ctx_t) && (old(ctx_seen) || !ctx_seen)
 //@     invariant ctx_t > old(ctx_t) ==> !ctx_cancelled(ctx, old(ctx_t))
 //@   assigns ghost(n_eng_notify), ghost(n_set_exec_header)
+//@   ensures c03_slot: err == nil ==> !st_slot_err(state) && st_slot(state) == old(benv.Slot)
+//@   ensures c03_reads: validateResult && err == nil ==> !st_forkdata_err(state) && !st_gvr_err(state) && !epc_proposer_err(epc, old(benv.Slot))
+//@   ensures c03_signature: old(benv != nil && epc != nil && epc.ValidatorPubkeyCache != nil && (forall r PcPtr :: {pctrig(r)} pctrig(r) && alloc(r) ==> pc_local(r.pub2idx, r.idx2pub, r.trustedParentCount) && pc_chain(r.parent, r, r.trustedParentCount, r.parent.trustedParentCount, len(r.parent.idx2pub))) && (forall r PcPtr :: {held(r.rwLock)} held(r.rwLock) == 0)) && validateResult && err == nil ==> (exists pk Pub48T :: block_sig_ok(old(benv.ProposerIndex), epc_proposer(epc, old(benv.Slot)), old(benv.ForkDigest), old(benv.BlockRoot), old(benv.Signature), pk, DOMAIN_BEACON_PROPOSER, st_forkdata(state).CurrentVersion, st_gvr(state)))
 
 // END C18 generated
